@@ -296,12 +296,22 @@ func runC02(e *sim.Env) {
 	if stress {
 		mix.FCForm, mix.FCProof, mix.FCRevise = 10, 8, 6
 	}
+	// 1 run in 5 between the hardfork heights: blocks of a single transaction,
+	// mostly v2 contract formations and (often input-less) revisions, so that
+	// blocks whose only updated leaves are v2 contracts get applied and reverted
+	// while the store still tracks v1 elements
+	maxTx := e.Range(1, 6)
+	if !stress && net.Regime == "overlap" && e.Chance(1, 5) {
+		mix = gen.TxMix{Pay: 1, V2Pay: 2, V2Form: 6, V2Revise: 14, V2Renew: 1}
+		maxTx = 1
+		e.Shape("v2-contract-blocks")
+	}
 	tree.Grow(e, gen.GrowOpts{
 		Blocks:    e.Range(6, 40),
 		Corrupt:   e.Range(0, 2),
 		MinerPool: []types.Address{types.VoidAddress, net.Actors[0].Addr},
 		LongFork:  true,
-		Block:     gen.BlockOpts{Mix: mix, MaxTx: e.Range(1, 6), OrderSafe: !stress, Now: now, Strict: genStrict},
+		Block:     gen.BlockOpts{Mix: mix, MaxTx: maxTx, OrderSafe: !stress, Now: now, Strict: genStrict},
 	})
 	plan := makePlan(e, tree)
 	twin := &linearTwin{net: net}
